@@ -18,8 +18,10 @@ RULE = ('columns of <= 10 numbers/texts (no blanks), tables <= 10x4; every '
         'another operator / the key occurs more than once or not at all; '
         'distinct by (function, operator, operand class, position class)')
 ASSUMPTIONS = [
-    'not generated (statement silent): booleans, numeric-looking '
-    'text and wildcards (* ? ~) in data or criteria; empty cells only in '
+    'not generated (statement silent): wildcards (* ? ~) in data or '
+    'criteria; booleans and numeric-looking text only as lookup keys / '
+    'values of exact MATCH and VLOOKUP (a text does not equal the number it '
+    'spells); empty cells only in '
     'layouts whose verdict does not depend on what an empty cell satisfies '
     '(same count wherever the empty cells sit; conjunctions decided by the '
     'other column); approximate MATCH only '
@@ -36,7 +38,8 @@ FLOORS = {'countif_cases': 1000, 'countifs_cases': 200, 'match_cases': 500,
           'approximate_text_matches': 100,
           'lookup_history_cases': 300, 'empty_operand_criteria': 150,
           'empty_cells_in_range_cases': 300,
-          'float_lookalike_operand_cases': 50}
+          'float_lookalike_operand_cases': 50,
+          'text_is_not_its_number_cases': 40, 'choose_254_cases': 20}
 ANCHOR_FUNCS = {
     'xlcalculator/xlfunctions/lookup.py': ['MATCH', 'VLOOKUP', 'CHOOSE'],
     'xlcalculator/xlfunctions/statistics.py': ['COUNTIF', 'COUNTIFS'],
@@ -563,6 +566,71 @@ def run(ctx):
                          {'formula': f_, 'data': colx, 'observed': got,
                           'reference': want}, monitor='linear-scan',
                          group='float-lookalike:' + f_[1:8])
+    # ---- a text is not the number it spells (nor the truth value): lookups and
+    # criteria-free matches over number / boolean keys with text lookup values
+    # and the other way round; CHOOSE with the full 254 values ------------------
+    if ctx.shard in (7, 8) or thorough:
+        keys = [7, 7.5, 12, True, 'apple', '7', '12.0']
+        cells = {f'A{i + 1}': k for i, k in enumerate(keys)}
+        cells.update({f'B{i + 1}': 100 + i for i in range(len(keys))})
+        rg, tb = f'A1:A{len(keys)}', f'A1:B{len(keys)}'
+
+        def first(pred):
+            return next((i for i, k in enumerate(keys) if pred(k)), None)
+        lookups = [
+            ('"7"', lambda k: isinstance(k, str) and k == '7'),
+            ('"7.5"', lambda k: isinstance(k, str) and k == '7.5'),
+            ('"TRUE"', lambda k: isinstance(k, str) and k.upper() == 'TRUE'),
+            ('"12"', lambda k: isinstance(k, str) and k == '12'),
+            ('7', lambda k: is_num(k) and k == 7),
+            ('12', lambda k: is_num(k) and k == 12),
+            ('"12.0"', lambda k: isinstance(k, str) and k == '12.0'),
+            ('"APPLE"', lambda k: isinstance(k, str) and k.upper() == 'APPLE'),
+        ]
+        forms = {}
+        for lit_, pred in lookups:
+            pos = first(pred)
+            forms[f'=MATCH({lit_},{rg},0)'] = ('num', float(pos + 1)) \
+                if pos is not None else ('err', '#N/A')
+            forms[f'=VLOOKUP({lit_},{tb},2,FALSE)'] = \
+                ('num', float(100 + pos)) if pos is not None \
+                else ('err', '#N/A')
+            forms[f'=VLOOKUP({lit_},{tb},1,FALSE)'] = norm_of(keys[pos]) \
+                if pos is not None and not isinstance(keys[pos], bool) \
+                else (('bool', True) if pos is not None else ('err', '#N/A'))
+        outs = subject.eval_batch(list(forms), cells)
+        for (f_, want), got in zip(forms.items(), outs):
+            ctx.event('text_is_not_its_number_cases')
+            ctx.case(('text-vs-number', f_))
+            if got != ('value', want):
+                ctx.fail(f'{f_} over the keys {keys} -> {got}, the first row '
+                         f'whose key EQUALS the lookup value gives {want} (a '
+                         f'text does not equal the number it spells)',
+                         {'formula': f_, 'keys': keys, 'observed': got,
+                          'reference': want}, monitor='linear-scan',
+                         group='text-vs-number:' + f_[1:6])
+        # CHOOSE with as many values as a function takes
+        vals254 = [1000 + i for i in range(254)]
+        args254 = ','.join(str(v) for v in vals254)
+        cforms = {}
+        for idx in (1, 2, 127, 253, 254):
+            cforms[f'=CHOOSE({idx},{args254})'] = ('num', float(vals254[idx - 1]))
+            cforms[f'=CHOOSE(A1,{args254})|{idx}'] = ('num',
+                                                      float(vals254[idx - 1]))
+        cforms[f'=CHOOSE(255,{args254})'] = ('err', '#VALUE!')
+        cforms[f'=CHOOSE(0,{args254})'] = ('err', '#VALUE!')
+        for f_, want in cforms.items():
+            text, _, cellv = f_.partition('|')
+            got = subject.eval_one(text, {'A1': int(cellv)} if cellv else {})
+            ctx.event('choose_cases')
+            ctx.event('choose_254_cases')
+            ctx.case(('CHOOSE-254', text[:14], cellv))
+            if got != ('value', want):
+                ctx.fail(f'{text[:30]}... (254 values{", A1=" + cellv if cellv else ""}) '
+                         f'-> {got}, expected {want}',
+                         {'formula': text[:200], 'A1': cellv, 'observed': got,
+                          'reference': want}, monitor='linear-scan',
+                         group='CHOOSE-254')
     # ---- histories: tables that share their key column, payloads re-assigned -----
     # (an answer must come from the table the formula names as it is NOW: same
     # keys with other payloads or another width, side by side in one workbook,
